@@ -26,8 +26,14 @@ TECHNIQUE = "Coq reflective first-character analysis (H1) + morphism lemma (H2);
 
 
 def _variants(m, plugins, hard_wrap, escape):
+    def real(x):
+        if x in ("toc:fenced", "toc:rst"):
+            from mistune.directives import FencedDirective, RSTDirective, TableOfContents
+            return (FencedDirective if x == "toc:fenced" else RSTDirective)([TableOfContents()])
+        return x
+
     def mk(kind):
-        ps = list(plugins) + (["speedup"] if kind != "without" else [])
+        ps = [real(x) for x in plugins] + (["speedup"] if kind != "without" else [])
         md = m.create_markdown(plugins=ps, hard_wrap=hard_wrap, escape=escape)
         if kind == "inline-only":
             md.block.rules.remove("paragraph")
@@ -130,6 +136,11 @@ def oracle(ctx, extra):
             doc = gen_docs.noise(r)
         cfg_k = r.random()
         plugins = [] if cfg_k < 0.25 else (["strikethrough", "footnotes", "table"] if cfg_k < 0.4 else r.sample(P, r.randint(1, 8)))
+        if i % 16 == 9:
+            # a table of contents (directive) over headings of every form: the entries are rendered from the heading tokens
+            style = r.choice(["fenced", "rst"])
+            doc = gen_docs.toc_doc(r, style)
+            plugins = [x for x in plugins if isinstance(x, str)] + ["toc:" + style]
         if i % 8 == 3:
             # a document that really uses one plugin's constructs (definitions + uses, wrapped uses), with that plugin enabled
             need, doc = gen_docs.showcase_for(r)
@@ -145,7 +156,7 @@ def oracle(ctx, extra):
     return {"evaluations": n, "distinct_nontrivial": len(seen), "failures": fails, "known_finding_instances": len(known),
             "known_by_class": {k: sum(1 for f in known if f["class"] == k) for k in {f["class"] for f in known}},
             "rule": "documents: 50% generated with all plugin syntaxes, 15% interrupt/lazy fragments, 20% strings dense in stop "
-                    "characters / white space / hard and soft breaks / URLs / entities, 15% noise; every 8th a showcase of one plugin's constructs with that plugin enabled (abbreviations with multi-word, prefix and stop-character keys, uses wrapped over two lines); configurations: core (25%), "
+                    "characters / white space / hard and soft breaks / URLs / entities, 15% noise; every 8th a showcase of one plugin's constructs with that plugin enabled (abbreviations with multi-word, prefix and stop-character keys, uses wrapped over two lines), every 16th a table-of-contents directive over headings of every form (also setext headings that span two lines); configurations: core (25%), "
                     "mistune.html's own set (15%), 1-8 random plugins; hard_wrap 35%, escape=False 25%; HTML compared with "
                     "plugins=P vs P+['speedup']; a difference is shrunk by delta debugging and classified by re-running with "
                     "only the block half / only the inline half of speedup",
